@@ -92,6 +92,9 @@ pub fn replay(_sub: &str, w: &Value) -> Result<String, String> {
   if w["explorer"] == "e3" {
     return crate::c16_world::replay(w);
   }
+  if w["explorer"] == "e4" {
+    return crate::c16_real::replay(w);
+  }
   let name = w["harness"].as_str().ok_or("no harness in witness")?;
   let choices: Vec<usize> = w["choices"].as_array().ok_or("no choices")?.iter().map(|x| x.as_u64().unwrap_or(0) as usize).collect();
   let h = harnesses(Tier::Thorough).into_iter().find(|h| h.name == name).ok_or("unknown harness")?;
@@ -112,5 +115,6 @@ pub fn run(tier: Tier) -> Report {
   rep.assume("E2: atomicity at the granularity of individual atomic operations and Notify calls of WaitGroup (hooks between them)");
   rep.add(waitgroup_sub(tier));
   crate::c16_world::add_world_subs(&mut rep, tier);
+  rep.add(crate::c16_real::real_sub(tier));
   rep
 }
